@@ -1,15 +1,56 @@
 """Assemble one Verus verification unit from a unit template (units/*.rs) and /repo's
 working tree.  The template is Verus text with `//@` directives; see DESIGN.md §3.1."""
 
+import json
 import os
 import re
 import shlex
 
 from .extract import Source, FnText, BlockText, ExtractError, type_text, format_templates, split_format, raw_item_text
-from .rustlex import norm
+from .rustlex import norm, sig
 
 VERIF = os.path.dirname(os.path.dirname(os.path.abspath(__file__)))
 REPO = os.environ.get('VERIF_REPO', '/repo')
+try:
+    PINNED = json.load(open(os.path.join(os.path.dirname(os.path.dirname(os.path.abspath(__file__))), 'pinned_fns.json')))
+except Exception:
+    PINNED = {}
+
+
+def rename_map(old, now):
+    """old/now: [(kind, text)] of a function's significant tokens.  If they differ only by a consistent, injective renaming
+    of identifier tokens, return {old_name: new_name} (empty when equal); otherwise None."""
+    if not old or len(old) != len(now):
+        return None
+    fwd, back = {}, {}
+    for (k1, t1), (k2, t2) in zip(old, now):
+        if k1 != k2:
+            return None
+        if k1 != 'ident':
+            if t1 != t2:
+                return None
+            continue
+        if fwd.setdefault(t1, t2) != t2 or back.setdefault(t2, t1) != t1:
+            return None
+    ren = {a: b for a, b in fwd.items() if a != b}
+    # only plain variables may be renamed: never a method, path segment, macro, type, variant or field name — the
+    # contract text is rewritten too, so a changed callee or constant must never look like a renaming
+    def plain(toks, name):
+        if not (name[0].islower() or name[0] == '_') or name in ('self', 'super', 'crate'):
+            return False
+        for i, (k, t) in enumerate(toks):
+            if k == 'ident' and t == name:
+                prev = toks[i - 1][1] if i else ''
+                nxt = toks[i + 1][1] if i + 1 < len(toks) else ''
+                prev2 = toks[i - 2][1] if i > 1 else ''
+                if prev == '.' or (prev == ':' and prev2 == ':') or nxt in ('(', '!', '{') and prev not in ('for', 'in', 'let', 'mut', '=', '(', ',', 'return') \
+                        or nxt == '(' or nxt == '!' or (nxt == ':' and i + 2 < len(toks) and toks[i + 2][1] == ':'):
+                    return False
+        return True
+    for a, b in ren.items():
+        if not plain(old, a) or not plain(now, b):
+            return None
+    return ren
 
 
 def registry_crate_dir(name):
@@ -242,10 +283,27 @@ class Unit:
                         self.skipped = getattr(self, 'skipped', []) + ['%s (optional, not present: %s)' % (kv.get('as', kv['fn']), e)]
                         continue
                     raise
+                key = kv.get('as', kv['fn'])
+                if not is_block:
+                    now = [(t.kind, t.text) for t in sig(ft.st[ft.first:ft.bc + 1])]
+                    self.fn_tokens = getattr(self, 'fn_tokens', {})
+                    self.fn_tokens[key] = now
+                    ren = rename_map(PINNED.get(os.path.splitext(os.path.basename(self.path))[0], {}).get(key), now)
+                    if ren:
+                        # the code differs from the text the proof was written for only by a consistent renaming of
+                        # identifiers (locals, closure parameters): anchors, invariants and hints follow the new names
+                        pat = re.compile(r'(?<![A-Za-z0-9_])(%s)(?![A-Za-z0-9_])' % '|'.join(re.escape(o) for o in ren))
+                        subs = [[pat.sub(lambda m: ren[m.group(1)], h), [pat.sub(lambda m: ren[m.group(1)], b) for b in body]] for h, body in subs]
+                        self.manifest.append({'op': 'directives follow renamed identifiers', 'fn': key, 'renamed': ren})
                 ft.drop_prints()
                 outlined = []
                 signature = None
                 external_body = False
+                annotated_closures = 0
+                try:
+                    total_closures = len(ft.closures())
+                except Exception:
+                    total_closures = 0
                 for head, body in subs:
                     text = '\n'.join(body)
                     parts = head.split(None, 1)
@@ -261,6 +319,8 @@ class Unit:
                         signature = text
                     elif op == 'FIRST':
                         ft.add_first_stmt(text)
+                    elif op == 'LAST':
+                        ft.add_last_stmt(text)
                     elif op == 'LOOP':
                         m = re.match(r'(\d+)(?:\s+ITER=(\w+))?', rest)
                         ft.add_loop_invariant(int(m.group(1)), text, m.group(2))
@@ -276,6 +336,7 @@ class Unit:
                         (ft.insert_after if op == 'AFTER' else ft.insert_before)(m.group(1), text, occ)
                     elif op == 'CLOSURE':
                         ft.annotate_closure(int(rest.strip()), text.strip())
+                        annotated_closures += 1
                     elif op == 'WRAP':
                         m = re.match(r'`(.*)`(?:\s+#(\d+))?\s+WITH\s+(\w+)\s*$', rest)
                         if not m:
@@ -327,6 +388,7 @@ class Unit:
                     'name': kv.get('as', kv['fn']), 'fn': kv['fn'], 'kind': 'assumed-contract' if external_body else 'contract-on-real-code',
                     'props': props, 'lines': [start, end], 'file': src.display,
                     'container': kv.get('in'), 'sha256': man['sha256'], 'vname': kv.get('vname'),
+                    'opaque_closures': max(0, total_closures - annotated_closures),
                 })
                 continue
             # plain template line
